@@ -17,7 +17,16 @@ func libECC(l *mc.Local, s dm.Symbol, data []byte, cs rcase) ([]byte, bool) {
 		chk.Violation(fmt.Sprintf("C08/symbolinfo/%v/lookup", s), fmt.Sprintf("SymbolInfo_Lookup pinned to %v: %v", s, err), rcase{Sub: "tables"})
 		return nil, false
 	}
-	in := append([]byte(nil), data...)
+	// the data vector is handed over as a window of a larger array (spare capacity behind it, as
+	// when a codeword stream is cut into consecutive windows): the bytes behind the window belong
+	// to the caller and must not be touched
+	const guard = 0xA5
+	backing := make([]byte, len(data)+s.ECCW+16)
+	for i := range backing {
+		backing[i] = guard
+	}
+	copy(backing, data)
+	in := backing[:len(data)]
 	var out []byte
 	pm, site := mc.Guard(func() { out, err = encoder.ErrorCorrection_EncodeECC200(in, si) })
 	l.Count("evaluations", 1)
@@ -28,6 +37,12 @@ func libECC(l *mc.Local, s dm.Symbol, data []byte, cs rcase) ([]byte, bool) {
 	if err != nil {
 		chk.Violation(fmt.Sprintf("C08/ecc/%v/error", s), fmt.Sprintf("ErrorCorrection_EncodeECC200 on %d codewords (%s): %v", len(data), cs.Vec, err), cs)
 		return nil, false
+	}
+	for i := len(data); i < len(backing); i++ {
+		if backing[i] != guard {
+			chk.Violation(fmt.Sprintf("C08/ecc/%v/writes-behind-input", s), fmt.Sprintf("ErrorCorrection_EncodeECC200 wrote into the caller's array behind the data window (offset +%d) (%s)", i-len(data), cs.Vec), cs)
+			return nil, false
+		}
 	}
 	if !bytes.Equal(in, data) {
 		chk.Violation(fmt.Sprintf("C08/ecc/%v/input-modified", s), "ErrorCorrection_EncodeECC200 modified its input slice ("+cs.Vec+")", cs)
